@@ -8,6 +8,20 @@ CLAIMED = {
   note="Trusted: govc (our VC generator), the SMT solvers, GOARCH=amd64. The command layer (fnBitfield/bitfieldWrite argument plumbing, BITCOUNT/BITPOS/BITOP loops) is not yet under contract; evidence lists what is.",
   design="DESIGN.md §6 C18"),
 }
+CLAIMED.update({
+ "C01": dict(
+  text="Deductive proof (cursor discipline) for the real RESP deserializer: findNextLine returns the first CRLF at or after the cursor (loop invariant, all buffer contents), peekBulkLine consumes exactly the declared length and checks the trailing CRLF without any index wrap (64-bit vector semantics), every value-level parser advances the cursor monotonically, strictly on success, never past the buffer, and deserializeNext reports exactly the number of bytes consumed. This is the sequential core of 'consume exactly the parsed length, keep the rest'.",
+  note="Not decided here: TCP delivery/scheduling, the goroutine hand-off in clientCxn.run, reply serialisation and CR/LF-freedom of error strings (planned, see DESIGN §6 C01). Trusted: govc, SMT solvers; strconv.ParseInt modelled by uninterpreted parseOK/parseVal.",
+  design="DESIGN.md §6 C01"),
+ "C13": dict(
+  text="Deductive no-panic proof for everything the RESP parser does with client bytes: every index, slice, nil dereference, type assertion, make size and map-key hashability condition in the 25 deserializer functions (and the bit-field primitives) is an obligation discharged for all inputs; value-level parsers only return known RESP dynamic types. Five crashes reachable from the socket were found by these obligations and repaired (known_findings.txt).",
+  note="Covers the deserializer and bit-field primitives only; command handlers' argument assertions and allocation sizes are not yet swept, and 'bounded time' is not a contract-level statement. Trusted: govc, solvers, helper stubs listed in evidence.",
+  design="DESIGN.md §6 C13"),
+ "C17": dict(
+  text="Deductive proof of the arithmetic the SCAN guarantee rests on, for every table size 2^4..2^31: hashToIndex places a key at Reverse32(hash)>>(32-k) inside the table (proved on the real function), cursor/index round trip, masking to a smaller table moves the normalised position back to the start of the containing bucket, growing splits bucket i into 2i,2i+1, and the successor of the last bucket is cursor 0 (bit-vector lemmas).",
+  note="The scan step function dictScanUnlocked itself (loop structure, match filtering) and the composition lemma over steps are not yet under contract; this check decides the placement/cursor arithmetic only. Trusted: govc, solvers.",
+  design="DESIGN.md §6 C17"),
+})
 NOT_BUILT = {}
 ALL = ["C%02d" % i for i in range(1, 21)]
 
